@@ -363,6 +363,11 @@ func (d *DBFT[H]) onPrepareRequest(msg ConsensusPayload[H]) {
 	d.processMissingTx()
 	d.updateExistingPayloads(msg)
 	d.PreparationPayloads[msg.ValidatorIndex()] = msg
+	// The PreHeader can't be constructed until the request is stored, so the
+	// PreCommits received before it are not checked by the call above.
+	if d.isAntiMEVExtensionEnabled() {
+		d.verifyPreCommitPayloadsAgainstPreBlock()
+	}
 
 	if !d.hasAllTransactions() || !d.createAndCheckBlock() || d.Context.WatchOnly() {
 		return
